@@ -257,6 +257,11 @@ def gen_cases(tier, seed):
             for i, plan in enumerate(plist):
                 yield {'kind': 'twin', 'name': name, 'program': prog, 'plan': [dict(e, act=list(e['act'])) for e in plan], 'wrap': wrap,
                        'drain': True, 'listener': False}
+            # the application's on_terminated fails after the library's part of it: the process leaves the terminal state it had reached
+            # for EXCEPTED, closed as it is -- a transition like any other, announced like any other
+            for plan in [[]] + [[{'at': s, 'act': m}] for s in range(0, n + 2) for m in MSGS[:7]]:
+                yield {'kind': 'twin', 'name': name, 'program': prog, 'plan': [dict(e, act=list(e['act'])) for e in plan], 'wrap': wrap,
+                       'drain': True, 'listener': False, 'late_fault': True}
             # the process is one recreated (with the communicator) from a checkpoint written just after its future had been cancelled by
             # whoever held it: alive until its next step carries out the kill, and reachable like any live process
             for plan in [[]] + [[{'at': s, 'act': m}] for s in (0, 1) for m in MSGS] + [[{'at': 0, 'act': m1}, {'at': 0, 'act': m2}] for m1 in MSGS[:4] for m2 in MSGS[:4]]:
@@ -590,6 +595,10 @@ def run_case(case):
     label = '%s:%s' % (case['name'], 'loop' if case['wrap'] else 'raw')
     # announcements: exactly once, in order, sent by the pid
     trans = [e[1:] for e in a['events'] if e[0] == 'state']
+    if case.get('late_fault') and a['final'].get('state') == 'excepted' and trans and trans[-1][1] in ('finished', 'killed', 'excepted'):
+        # (the recorder's own state hook went with the close that preceded the late fault: the transition the fault caused is known from
+        # where the process ended)
+        trans.append([trans[-1][1], 'excepted'])
     exp_subjects = ['state_changed.%s.%s' % (f, t) for f, t in trans]
     failing = {int(i) for i in (case.get('bfail') or {})}
     exp_ann = [[case.get('pid', 4242), s] for i, s in enumerate(exp_subjects, start=1) if i not in failing]
@@ -646,7 +655,9 @@ def run_case(case):
         text = c['args'][1].get('msg_text')
         act = ['play'] if c['name'] == 'play' else [c['name'], text]
         plan_b.append({'at': ['events', c['pos']], 'act': act})
-    b = lifecycle.run_case({'program': case['program'], 'plan': plan_b, 'drain': True, 'listener': False, 'recreate_cancelled': bool(case.get('recreate_cancelled'))})
+    b = lifecycle.run_case({'program': case['program'], 'plan': plan_b, 'drain': True, 'listener': False, 'recreate_cancelled': bool(case.get('recreate_cancelled')),
+                            'late_fault': bool(case.get('late_fault'))})
+    obs['late_hook_faults'] = int(bool(case.get('late_fault')))
     obs['twin_compared'] = 1
     direct = [x for x in b['acts'] if x['via'].startswith('events')]
     sa, sb = _summary(a), _summary(b)
